@@ -42,6 +42,13 @@ def check(repo: Repo, rep, tier):
 
     # a created bound / member set is what all evaluations observed, not the first one
     accumulate(repo, rep)
+    from .C14 import site_key
+    from .C16 import hasrepr_eq
+    from .C04 import xdist_worker
+
+    site_key(repo, rep)
+    hasrepr_eq(repo, rep)
+    xdist_worker(repo, rep)
 
 
 def create_exh(repo: Repo, rep):
